@@ -80,6 +80,11 @@ CHECKS = {
    note=NOTE + " C06: Ctl.v is a hand transcription of the control-flow cases of compiler.go and do.go (tie by instruction-for-instruction correspondence); user calls are atomic in the abstract machine (C09); theorems are for unoptimized code (optimized path: C02 + the differential).",
    technique="Coq proof of compiler correctness for the control-flow skeleton (simulation by induction on Go's big-step derivation) + exhaustive small-scope correspondence + differential against go build",
    ref="DESIGN.md section 5 C06"),
+ "C07": dict(
+   text="A bytecode verifier (Model/StackCheck.v: per-opcode pops/pushes/successors, one operand-stack depth per pc, jump targets inside the function with equal depth, slot and global operands in range, exit depth = declared results, FUNC bodies checked recursively in their own frame), evaluated by vm_compute on the code the real compiler produced for every program of the run, and its soundness theorems over the VM model for ALL accepted code, fuel and states: c07_sound (execution is never stuck on an operand, slot, global or code-shape access, in the current or any callee frame), c07_depth (a finished frame has its slot count, the operand depth the verifier computed at the exit taken, and the declared number of results), c07_run (a program of statements leaves an empty stack), c07_frame (a call returns exactly the requested results on top of the caller's untouched operands), c07_init. Correspondence: checker verdicts vs an independent Go mirror, 98 code mutants rejected; system level: generated programs and statement snippets leave no residual values through VM.Eval and agree with the Go toolchain.",
+   note=NOTE + " C07: universality over programs = every code list the checker accepts; that the compiler's output is accepted is established per program of the run (generated programs + all test-table inputs), not as a theorem about compile. The split-frame model refining the real flat stack is tied by run-level correspondence. Opcodes outside Model/VM.v (NEWMAP, GETOK, DELETE, STRUCT, GLOBALSTRUCT, NEWSTRUCT, SETMETHOD) have hand-read effects.",
+   technique="Coq proof of soundness of a bytecode verifier (type-safety style preservation over the VM step model, mutual induction on fuel for calls) + verifier run by vm_compute on real compiler output + differential",
+   ref="DESIGN.md section 5 C07"),
  "C01": dict(
    text="C01 is claimed as the composition of the facet properties (each with its own theorems) plus a whole-program differential against the Go toolchain; the end-to-end part that is closed as a theorem is c01_expr_partial / c01_expr_eval: for every token list, variable assignment and operand value, goatlang's parse (generated table), opcode choice (generated infixMap) and operator implementations (generated from value.go) give Go's grouping and Go's int32 value. Correspondence: expression model vs implementation and vs real Go; model VM vs real VM on real compiled code; system level: generated programs of four profiles incl. multi-package layouts vs `go build`.",
    note=NOTE + " C01: no formal semantics of Go is available offline, so there is no single end-to-end theorem over whole programs (named _partial); statements, calls, containers, strings, printing, scoping and packages are decided by C02-C20; 'as the Go toolchain' in the differential means go1.23 on the same source with int := int32; fmt.Print/Sprint with several operands are outside (property statement).",
